@@ -25,7 +25,7 @@ CAP = 60000
 
 def describe(a):
     """content of a real Action object through its public attributes"""
-    kind = KIND_OF_CLASS.get(type(a).__name__)
+    kind = walk.kind_of(a)
     d = dict(kind=kind, target=tuple(int(i) for i in a.target), cost=float(a.cost), prob=float(a.prob))
     if kind == "exploit":
         d.update(service=str(a.service), os=None if a.os is None else str(a.os), access=int(a.access))
